@@ -9,8 +9,10 @@ EXTENDS Naturals, FiniteSets, TLC
 CONSTANTS DevDefaultFloor,     \* set of construction paths whose minimum version is left at the library default (deviation)
           DevSwallowKeyFault   \* set of backends that log a key/certificate loading fault and go on listening - without TLS (deviation)
 \* material: what the supplied certificate / key files contain.  A pair that cannot be loaded prevents start-up.
+\* "bindFault": the files are fine but the first attempt to bind the listening socket fails (EADDRNOTAVAIL, e.g. ::1 without
+\* IPv6): whatever the server does about it - give up, retry - it never ends up listening without TLS.
 ServerPaths == [backend : {"stdlib", "pyopenssl"}, cert : {"generated"}, material : {"ok"}]
-               \cup [backend : {"stdlib", "pyopenssl"}, cert : {"supplied"}, material : {"ok", "mismatch", "garbageKey", "garbageCert"}]
+               \cup [backend : {"stdlib", "pyopenssl"}, cert : {"supplied"}, material : {"ok", "mismatch", "garbageKey", "garbageCert", "bindFault"}]
 ClientPaths == [mode : {"tofu", "ca"}]
 Versions == 1..4
 DevOne == {[backend |-> "pyopenssl", cert |-> "generated", material |-> "ok"]}     \* used by the self-test
